@@ -177,17 +177,19 @@ def _app_kernel(A):
 
 def _snap_kernel(A):
     ang = float(np.degrees(np.arccos(min(1.0, float(A["max_angle_cos"])))))
-    return orc.Table(np.array(A["points"]), np.array(A["normals"]), np.array(A["source_mask"]), None,
-                     float(A["max_thickness_voxels"]), ang, tgt_idx=np.array(A["target_indices"]))
+    T = orc.Table(np.array(A["points"]), np.array(A["normals"]), np.array(A["source_mask"]), None,
+                  float(A["max_thickness_voxels"]), ang, tgt_idx=np.array(A["target_indices"]))
+    return {"T": T, "counts_before": np.array(A["match_counts"])}
 
 
-def _post_kernel(ctx, A, T, result):
+def _post_kernel(ctx, A, old, result):
+    T = old["T"]
     cap = int(A["match_distances"].shape[1])
     mc_max = T.max_candidates()
     if T.margin < EPS or mc_max >= CAP or mc_max > cap:
         ctx.ood("kernel_candidates")
         return
-    w = orc.judge_candidates(T, A["match_distances"], A["match_indices"], A["match_counts"], cap)
+    w = orc.judge_candidates(T, A["match_distances"], A["match_indices"], A["match_counts"], cap, old["counts_before"])
     if w is not None:
         w = dict(w, n=T.n, max_angle=T.max_angle, max_vox=T.max_vox, capacity=cap, threads=ctx.numba.get_num_threads())
     ctx.check("kernel_candidates", w is None, w)
